@@ -7,7 +7,7 @@ CONSTANTS
   FreePos = {1, 3, 5}
   FreeSet = {"GoodQuote", "ForgedSig", "OtherPeersQuote", "WrongContent", "Exists", "Error", "Unexpected", "Silent"}
   RestSet = {"GoodQuote", "Exists"}
-  OrderCap = 5
+  OrderCap = 4
   KnownMask = {"QUO-content-address-unchecked", "QUO-empty-result-ambiguous"}
 INVARIANTS NoClauseFalsified ModelConforms OrderIndependent
 CHECK_DEADLOCK FALSE
